@@ -227,6 +227,24 @@ def reindex_database(
             session.repo.add_file(zorg_page)
             session.commit()
 
+    if not cmd.paths:
+        # Pages that were indexed earlier but no longer exist on disk (i.e.
+        # they have been deleted or renamed) must leave the index too.
+        for zorg_page_name in sorted(
+            old_file_to_hash.keys() - file_to_hash.keys()
+        ):
+            num_of_updates += 1
+            _LOGGER.debug("Removing file from DB", file=zorg_page_name)
+            session.repo.remove_file_by_name(zorg_page_name)
+            c.zprint(
+                "REMOVING DELETED FILE",
+                zorg_page_name,
+                fg_color=Color.BLACK,
+                bg_color=Color.YELLOW,
+            )
+            if zorg_page_name in error_files:
+                error_files.remove(zorg_page_name)
+
     if num_of_updates == 0:
         c.zprint("NO ZORG FILES HAVE BEEN MODIFIED")
 
